@@ -632,4 +632,461 @@ Proof.
     rewrite firstn_length, skipn_length, cflat_length by assumption. lia.
 Qed.
 
+(* ------------------------------------------------------------------ set_byte *)
+
+Lemma wfl_eq : forall b b' (l : list (nat * chunk)) e e', wfl b l e -> b = b' -> e = e' -> wfl b' l e'.
+Proof. intros; subst; assumption. Qed.
+
+Lemma set_chunk_mid' : forall key (c : chunk) A R m,
+  keys_lt key A -> keys_ge m R -> (0 < clen c -> key < m) ->
+  set_chunk (A ++ R) key c = A ++ opt key c ++ R.
+Proof.
+  intros key c A R m HA HR Hlt. unfold set_chunk, opt. destruct (clen c =? 0) eqn:E; [reflexivity|].
+  apply Nat.eqb_neq in E. cbn [app]. eapply sd_set_mid; eauto. apply Hlt. lia.
+Qed.
+
+Lemma set_chunk_nonempty : forall cs key (c : chunk), 0 < clen c -> set_chunk cs key c = sd_set key c cs.
+Proof.
+  intros cs key c H. unfold set_chunk. destruct (clen c =? 0) eqn:E; [|reflexivity].
+  apply Nat.eqb_eq in E. lia.
+Qed.
+
+Lemma keys_lt_single : forall k k' (c : chunk), k' < k -> keys_lt k [(k', c)].
+Proof. intros. constructor; [exact H | constructor]. Qed.
+
+Lemma keys_lt_opt : forall k k' (c : chunk), k' < k -> keys_lt k (opt k' c).
+Proof. intros. unfold opt. destruct (clen c =? 0); [constructor | apply keys_lt_single; assumption]. Qed.
+
+Lemma byte_chunk_wfc : forall sym (x : B), wfc (Leaf sym [x] 0 1).
+Proof. intros. constructor. cbn. lia. Qed.
+
+Lemma flat_BV : forall cs len, flat (BV cs len) = flatl cs.
+Proof. reflexivity. Qed.
+
+Lemma set_byte_correct : forall (v : bvec) off sym x, wf v ->
+  exists v', set_byte v off sym x = Some v' /\ wf v' /\ flat v' = fa_set_byte (flat v) off x.
+Proof.
+  intros v off sym x Hv. unfold set_byte, ByteVecModel.set_byte.
+  pose proof (flat_length v Hv) as HL.
+  destruct (blen v <=? off) eqn:E.
+  - apply Nat.leb_le in E. eexists. split; [reflexivity|].
+    destruct (append_leaf_correct v (zeros_chunk (off - blen v)) Hv (zeros_chunk_wfc _)) as [H1 [H2 H3]].
+    destruct (append_leaf_correct _ (Leaf sym [x] 0 1) H1 (byte_chunk_wfc sym x)) as [H4 [H5 H6]].
+    split; [exact H4|]. rewrite H5, H2, zeros_chunk_flat.
+    unfold fa_set_byte, ByteVecSpec.fa_set_byte, zext. rewrite HL.
+    rewrite (skipn_all2 (flat v)) by lia.
+    rewrite firstn_all2; [reflexivity|].
+    rewrite app_length. unfold ByteVecSpec.zeros. rewrite repeat_length. lia.
+  - apply Nat.leb_gt in E. unfold load_chunk. rewrite (proj2 (Nat.leb_gt _ _) E).
+    destruct (find_chunk_spec 0 (chunks v) (blen v) Hv off 0) as [A [k [c [R [Heq [Hf [Hk [HA [Hc [Hp HR]]]]]]]]]]; [lia|].
+    rewrite Hf. eexists. split; [reflexivity|].
+    destruct (csub_correct c 0 (off - k) Hc) as [Hpre1 [Hpre2 Hpre3]]; [lia|].
+    destruct (csub_correct c (off - k + 1) (clen c) Hc) as [Hpost1 [Hpost2 Hpost3]]; [lia|].
+    set (pre := csub c 0 (off - k)) in *.
+    set (post := csub c (off - k + 1) (clen c)) in *.
+    set (bc := Leaf sym [x] 0 1).
+    pose proof (wfl_keys_lt _ _ _ HA) as KA.
+    pose proof (wfl_keys_ge _ _ _ HR) as KR.
+    (* the dict after the three assignments *)
+    assert (Hcs2 : sd_set off bc (set_chunk (chunks v) k pre) = (A ++ opt k pre ++ [(off, bc)]) ++ R).
+    { rewrite Heq. unfold set_chunk, opt. destruct (clen pre =? 0) eqn:Ep.
+      - apply Nat.eqb_eq in Ep. assert (off = k) by lia. subst off.
+        cbn [app]. rewrite sd_set_repl by exact KA. rewrite <- app_assoc. reflexivity.
+      - apply Nat.eqb_neq in Ep. rewrite sd_set_repl by exact KA.
+        replace (A ++ (k, pre) :: R) with ((A ++ [(k, pre)]) ++ R) by (rewrite <- app_assoc; reflexivity).
+        rewrite (sd_set_mid off bc (A ++ [(k, pre)]) R (k + clen c)).
+        + rewrite <- !app_assoc. reflexivity.
+        + apply keys_lt_app; [eapply keys_lt_weaken; [exact KA | lia] | apply keys_lt_single; lia].
+        + exact KR.
+        + lia. }
+    rewrite Hcs2.
+    rewrite (set_chunk_mid' (off + 1) post _ R (k + clen c)).
+    2:{ apply keys_lt_app; [eapply keys_lt_weaken; [exact KA | lia]|].
+        apply keys_lt_app; [apply keys_lt_opt; lia | apply keys_lt_single; lia]. }
+    2:{ exact KR. }
+    2:{ lia. }
+    split.
+    + unfold wf. cbn [chunks blen].
+      rewrite <- !app_assoc.
+      eapply wfl_app; [exact HA|].
+      eapply wfl_app; [apply opt_wfl; exact Hpre1|].
+      eapply wfl_app; [apply (wfl_eq (k + clen pre) (k + clen pre) [(off, bc)] (k + clen pre + clen bc)); [|reflexivity|reflexivity]|].
+      { replace off with (k + clen pre) by lia. apply wfl_single; [apply byte_chunk_wfc | cbn; lia]. }
+      eapply wfl_app; [apply (wfl_eq (off + 1) _ _ (off + 1 + clen post)); [apply opt_wfl; exact Hpost1 | cbn [clen bc]; lia | reflexivity]|].
+      eapply wfl_eq; [exact HR | lia | reflexivity].
+    + rewrite flat_BV.
+      rewrite !flatl_app, flatl_cons, !opt_flatl by assumption.
+      rewrite Hpre2, Hpost2. cbn [flatl flat_map cflat bc skipn firstn app].
+      rewrite flat_flatl, Heq, flatl_app, flatl_cons.
+      unfold fa_set_byte, ByteVecSpec.fa_set_byte, zext.
+      pose proof (flatl_length _ _ _ HA) as LA. rewrite Nat.sub_0_r in LA.
+      pose proof (cflat_length c Hc) as LC.
+      rewrite flat_flatl, Heq, flatl_app, flatl_cons in HL.
+      rewrite HL. replace (off - blen v) with 0 by lia. unfold ByteVecSpec.zeros. cbn [repeat].
+      rewrite app_nil_r.
+      rewrite firstn_mid by lia. rewrite skipn_mid by lia. rewrite LA.
+      rewrite Nat.sub_0_r. rewrite <- !app_assoc. f_equal. f_equal. cbn [app]. f_equal. f_equal.
+      replace (off + 1 - k) with (off - k + 1) by lia.
+      apply firstn_all2. rewrite skipn_length. lia.
+Qed.
+
+(* ------------------------------------------------------------------ set_slice *)
+
+Definition shift (s : nat) (l : list (nat * chunk)) : list (nat * chunk) :=
+  map (fun kc => (s + fst kc, snd kc)) l.
+
+Lemma wfl_shift : forall s b (l : list (nat * chunk)) e, wfl b l e -> wfl (s + b) (shift s l) (s + e).
+Proof.
+  intros s b l e H. induction H as [b | b c r e Hpos Hc Hr IH].
+  - constructor.
+  - cbn [shift map fst snd]. constructor; auto.
+    eapply wfl_eq; [exact IH | lia | reflexivity].
+Qed.
+
+Lemma flatl_shift : forall s l, flatl (shift s l) = flatl l.
+Proof.
+  intros s l. induction l as [|[k c] r IH]; [reflexivity|].
+  cbn [shift map fst snd]. rewrite !flatl_cons. f_equal. exact IH.
+Qed.
+
+Definition val_chunks (start : nat) (val : chunk) : list (nat * chunk) :=
+  match val with
+  | Nest _ wcs _ => shift start wcs
+  | Leaf _ _ _ _ => [(start, val)]
+  end.
+
+Lemma val_chunks_wfl : forall start (val : chunk), wfc val -> 0 < clen val ->
+  wfl start (val_chunks start val) (start + clen val).
+Proof.
+  intros start val H Hpos. destruct val as [sym d s l | t wcs len].
+  - cbn [val_chunks]. apply wfl_single; assumption.
+  - cbn [val_chunks clen]. inversion H; subst.
+    eapply wfl_eq; [apply wfl_shift; eassumption | lia | reflexivity].
+Qed.
+
+Lemma val_chunks_flatl : forall start (val : chunk), flatl (val_chunks start val) = cflat val.
+Proof.
+  intros start val. destruct val as [sym d s l | t wcs len].
+  - cbn [val_chunks flatl flat_map snd]. apply app_nil_r.
+  - cbn [val_chunks]. rewrite flatl_shift. reflexivity.
+Qed.
+
+Definition put_val (start : nat) (val : chunk) (cs : list (nat * chunk)) : list (nat * chunk) :=
+  match val with
+  | Nest _ wcs _ => fold_left (fun acc kc => set_chunk acc (start + fst kc) (snd kc)) wcs cs
+  | Leaf _ _ _ _ => set_chunk cs start val
+  end.
+
+Lemma fold_insert : forall start m R2 b0 (wcs : list (nat * chunk)) e0, wfl b0 wcs e0 ->
+  forall P, keys_lt (start + b0) P -> keys_ge m R2 -> start + e0 <= m ->
+  fold_left (fun acc kc => set_chunk acc (start + fst kc) (snd kc)) wcs (P ++ R2) =
+  P ++ shift start wcs ++ R2.
+Proof.
+  intros start m R2 b0 wcs e0 H. induction H as [b | b c r e Hpos Hc Hr IH]; intros P HP HR Hm.
+  - reflexivity.
+  - cbn [fold_left fst snd shift map]. fold (shift start r).
+    pose proof (wfl_le _ _ _ Hr) as Hle.
+    rewrite set_chunk_nonempty by assumption.
+    rewrite (sd_set_mid (start + b) c P R2 m) by (auto; lia).
+    replace (P ++ (start + b, c) :: R2) with ((P ++ [(start + b, c)]) ++ R2) by (rewrite <- app_assoc; reflexivity).
+    rewrite IH.
+    + rewrite <- !app_assoc. reflexivity.
+    + apply keys_lt_app; [eapply keys_lt_weaken; [exact HP | lia] | apply keys_lt_single; lia].
+    + exact HR.
+    + exact Hm.
+Qed.
+
+(* writing the value at [start] into P ++ stale ++ R2 where stale is nothing or the old
+   chunk that still sits at key [start] *)
+Lemma put_val_correct : forall start stop m (val c0 : chunk) P R2 (stale : bool),
+  wfc val -> clen val = stop - start -> start < stop ->
+  keys_lt start P -> keys_ge m R2 -> stop <= m ->
+  put_val start val (P ++ (if stale then [(start, c0)] else []) ++ R2) =
+  P ++ val_chunks start val ++ R2.
+Proof.
+  intros start stop m val c0 P R2 stale Hv Hlen Hlt HP HR Hm.
+  assert (Hfirst : forall c : chunk, 0 < clen c -> start < m ->
+     set_chunk (P ++ (if stale then [(start, c0)] else []) ++ R2) start c = P ++ (start, c) :: R2).
+  { intros c Hc Hsm. rewrite set_chunk_nonempty by assumption. destruct stale; cbn [app].
+    - apply sd_set_repl. exact HP.
+    - eapply sd_set_mid; eauto. }
+  destruct val as [sym d s l | t wcs len].
+  - cbn [put_val val_chunks app]. apply Hfirst; [cbn [clen] in *; lia | lia].
+  - cbn [put_val val_chunks]. cbn [clen] in Hlen. inversion Hv as [| t' cs' len' Hw]; subst.
+    destruct wcs as [|[k0 c0'] rest].
+    + apply wfl_nil_inv in Hw. lia.
+    + apply wfl_cons_inv in Hw. destruct Hw as [-> [Hp0 [Hc0 Hrest]]].
+      cbn [fold_left fst snd]. rewrite Nat.add_0_r.
+      pose proof (wfl_le _ _ _ Hrest) as Hle.
+      rewrite Hfirst by (auto; lia).
+      replace (P ++ (start, c0') :: R2) with ((P ++ [(start, c0')]) ++ R2) by (rewrite <- app_assoc; reflexivity).
+      rewrite (fold_insert start m R2 _ _ _ Hrest).
+      * cbn [shift map fst snd]. rewrite Nat.add_0_r. rewrite <- !app_assoc. reflexivity.
+      * apply keys_lt_app; [eapply keys_lt_weaken; [exact HP | lia] | apply keys_lt_single; lia].
+      * exact HR.
+      * cbn [Nat.add] in *. lia.
+Qed.
+
+Lemma remove_tail : forall (A R : list (nat * chunk)) x,
+  remove_range (A ++ x :: R) (length A + 1) (length (A ++ x :: R)) = A ++ [x].
+Proof.
+  intros A R x. unfold remove_range. rewrite app_length. cbn [length].
+  destruct (length A + S (length R) <=? length A + 1) eqn:E.
+  - apply Nat.leb_le in E. destruct R; [reflexivity | cbn [length] in E; lia].
+  - rewrite skipn_all2 by (rewrite app_length; cbn [length]; lia).
+    rewrite app_nil_r. rewrite firstn_app. rewrite firstn_all2 by lia.
+    replace (length A + 1 - length A) with 1 by lia. reflexivity.
+Qed.
+
+Lemma remove_mid : forall (A A' R2 : list (nat * chunk)) x y R,
+  x :: R = A' ++ y :: R2 ->
+  remove_range (A ++ x :: R) (length A + 1) (length A + length A' + 1) = A ++ x :: R2.
+Proof.
+  intros A A' R2 x y R Heq. unfold remove_range. destruct A' as [|x' M].
+  - cbn [app length] in *. inversion Heq; subst.
+    replace (length A + 0 + 1 <=? length A + 1) with true by (symmetry; apply Nat.leb_le; lia).
+    reflexivity.
+  - cbn [app length] in *. inversion Heq; subst.
+    replace (length A + S (length M) + 1 <=? length A + 1) with false by (symmetry; apply Nat.leb_gt; lia).
+    rewrite firstn_app. rewrite firstn_all2 by lia.
+    replace (length A + 1 - length A) with 1 by lia. cbn [firstn].
+    rewrite skipn_app. rewrite skipn_all2 by lia.
+    replace (length A + S (length M) + 1 - length A) with (S (length M + 1)) by lia.
+    cbn [skipn app]. rewrite skipn_app. rewrite skipn_all2 by lia.
+    replace (length M + 1 - length M) with 1 by lia. cbn [skipn app].
+    rewrite <- app_assoc. reflexivity.
+Qed.
+
+(* first chunk truncated, value written: common part of both general sub-cases *)
+Lemma write_front : forall A fs (fc : chunk) R2 start stop m (val : chunk),
+  wfl 0 A fs -> wfc fc -> fs <= start < fs + clen fc -> start < stop ->
+  wfc val -> clen val = stop - start -> keys_ge m R2 -> stop <= m ->
+  put_val start val (set_chunk (A ++ (fs, fc) :: R2) fs (csub fc 0 (start - fs))) =
+  A ++ opt fs (csub fc 0 (start - fs)) ++ val_chunks start val ++ R2.
+Proof.
+  intros A fs fc R2 start stop m val HA Hfc Hs Hlt Hv Hlen HR Hm.
+  destruct (csub_correct fc 0 (start - fs) Hfc) as [Hp1 [Hp2 Hp3]]; [lia|].
+  set (pre := csub fc 0 (start - fs)) in *.
+  pose proof (wfl_keys_lt _ _ _ HA) as KA.
+  unfold set_chunk, opt. destruct (clen pre =? 0) eqn:Ep.
+  - apply Nat.eqb_eq in Ep. assert (start = fs) by lia. subst start.
+    cbn [app].
+    apply (put_val_correct fs stop m val fc A R2 true); auto.
+  - apply Nat.eqb_neq in Ep. rewrite sd_set_repl by exact KA.
+    replace (A ++ (fs, pre) :: R2) with ((A ++ [(fs, pre)]) ++ (if false then [(start, fc)] else []) ++ R2)
+      by (rewrite <- app_assoc; reflexivity).
+    rewrite (put_val_correct start stop m val fc _ R2 false); auto.
+    + rewrite <- !app_assoc. reflexivity.
+    + apply keys_lt_app; [eapply keys_lt_weaken; [exact KA | lia] | apply keys_lt_single; lia].
+Qed.
+
+Lemma fa_set_slice_some : forall l a b data, a < b -> length data = b - a ->
+  fa_set_slice l a b data = Some (firstn a (zext B zero l a) ++ data ++ skipn b l).
+Proof.
+  intros l a b data Hab Hlen. unfold fa_set_slice, ByteVecSpec.fa_set_slice.
+  replace (a =? b) with false by (symmetry; apply Nat.eqb_neq; lia).
+  replace (b <? a) with false by (symmetry; apply Nat.ltb_ge; lia).
+  replace (length data =? b - a) with true by (symmetry; apply Nat.eqb_eq; lia).
+  reflexivity.
+Qed.
+
+Lemma zext_in : forall (l : list B) n, n <= length l -> zext B zero l n = l.
+Proof.
+  intros l n H. unfold zext. replace (n - length l) with 0 by lia. apply app_nil_r.
+Qed.
+
+(* the general path of set_slice with its `let`s named *)
+Definition post_step (v : bvec) (stop : nat) (cs3 : list (nat * chunk)) : list (nat * chunk) :=
+  match load_chunk v (stop - 1) with
+  | Some (_, ls, lc) =>
+      if stop <? ls + clen lc then set_chunk cs3 stop (csub lc (stop - ls) (clen lc)) else cs3
+  | None => cs3
+  end.
+
+Definition general_path (v : bvec) (fi fs : nat) (fc : chunk) (start stop : nat) (val : chunk) : bvec :=
+  BV (post_step v stop
+        (put_val start val
+           (set_chunk
+              (remove_range (chunks v) (fi + 1)
+                 (if blen v <=? stop then length (chunks v)
+                  else match load_chunk v (stop - 1) with Some (li, _, _) => li + 1 | None => 0 end))
+              fs (csub fc 0 (start - fs)))))
+     (Nat.max (blen v) stop).
+
+Lemma set_slice_unfold : forall (v : bvec) start stop (val : chunk),
+  set_slice v start stop val =
+  if start =? stop then Some v
+  else if stop <? start then None
+  else if negb (stop - start =? clen val) then None
+  else if blen v <=? start then Some (append (append_leaf v (zeros_chunk (start - blen v))) val)
+  else match load_chunk v start with
+       | None => None
+       | Some (fi, fs, fc) =>
+           if (start =? fs) && (stop =? fs + clen fc)
+           then Some (BV (set_chunk (chunks v) fs val) (blen v))
+           else Some (general_path v fi fs fc start stop val)
+       end.
+Proof.
+  intros. unfold set_slice, ByteVecModel.set_slice, general_path, post_step, put_val.
+  destruct val; reflexivity.
+Qed.
+
+Lemma general_path_correct : forall (v : bvec) start stop (val : chunk) A fs (fc : chunk) R,
+  wf v -> wfc val -> chunks v = A ++ (fs, fc) :: R ->
+  wfl 0 A fs -> wfc fc -> 0 < clen fc -> wfl (fs + clen fc) R (blen v) ->
+  fs <= start < fs + clen fc -> start < stop -> clen val = stop - start ->
+  wf (general_path v (0 + length A) fs fc start stop val) /\
+  flat (general_path v (0 + length A) fs fc start stop val) =
+    firstn start (flat v) ++ cflat val ++ skipn stop (flat v).
+Proof.
+  intros v start stop val A fs fc R Hv Hval Heq HA Hfc Hfp HR Hk Hlt E2.
+  pose proof (flat_length v Hv) as HL.
+  pose proof (flatl_length _ _ _ HA) as LA. rewrite Nat.sub_0_r in LA.
+  pose proof (cflat_length fc Hfc) as LC.
+  pose proof (wfl_keys_lt _ _ _ HA) as KA.
+  pose proof (wfl_le _ _ _ HR) as HRle.
+  assert (Hflat : flat v = flatl A ++ cflat fc ++ flatl R).
+  { rewrite flat_flatl, Heq, flatl_app, flatl_cons. reflexivity. }
+  destruct (csub_correct fc 0 (start - fs) Hfc) as [Hp1 [Hp2 Hp3]]; [lia|].
+  unfold general_path.
+  destruct (blen v <=? stop) eqn:E5.
+  - (* the write reaches the end: everything after the first chunk goes *)
+    apply Nat.leb_le in E5.
+    assert (Hcs4 : forall cs3, post_step v stop cs3 = cs3).
+    { intros cs3. unfold post_step, load_chunk. destruct (blen v <=? stop - 1) eqn:E6; [reflexivity|].
+      apply Nat.leb_gt in E6.
+      destruct (find_chunk_spec 0 (chunks v) (blen v) Hv (stop - 1) 0) as [A2 [ls [lc [R2 [_ [Hf2 [_ [_ [_ [_ HR2]]]]]]]]]]; [lia|].
+      rewrite Hf2. apply wfl_le in HR2.
+      replace (stop <? ls + clen lc) with false by (symmetry; apply Nat.ltb_ge; lia). reflexivity. }
+    rewrite Hcs4. rewrite Heq. rewrite Nat.add_0_l, remove_tail.
+    rewrite (write_front A fs fc [] start stop stop val) by (auto; try lia; constructor).
+    split.
+    + unfold wf. cbn [chunks blen]. rewrite app_nil_r.
+      eapply wfl_app; [exact HA|].
+      eapply wfl_app; [apply opt_wfl; exact Hp1|].
+      eapply wfl_eq; [apply val_chunks_wfl; [exact Hval | lia] | lia | lia].
+    + rewrite flat_BV.
+      rewrite !flatl_app, opt_flatl, val_chunks_flatl, Hp2 by assumption.
+      cbn [flatl flat_map skipn]. rewrite app_nil_r.
+      rewrite Hflat, firstn_mid by lia. rewrite LA, Nat.sub_0_r.
+      rewrite skipn_all2 by (rewrite <- Hflat, HL; lia).
+      rewrite app_nil_r, <- app_assoc. reflexivity.
+  - (* the write ends inside the sequence *)
+    apply Nat.leb_gt in E5.
+    assert (HfR : wfl fs ((fs, fc) :: R) (blen v)) by (constructor; assumption).
+    destruct (find_chunk_spec fs _ (blen v) HfR (stop - 1) (0 + length A)) as [A' [ls [lc [R2 [Heq2 [Hf2 [Hk2 [HA' [Hlc [Hlp HR2]]]]]]]]]]; [lia|].
+    assert (Hload : load_chunk v (stop - 1) = Some (0 + length A + length A', ls, lc)).
+    { unfold load_chunk. replace (blen v <=? stop - 1) with false by (symmetry; apply Nat.leb_gt; lia).
+      rewrite Heq. rewrite (find_chunk_skip A 0 fs HA fc R (stop - 1) 0) by lia. exact Hf2. }
+    unfold post_step. rewrite Hload. rewrite Heq. rewrite Nat.add_0_l.
+    rewrite (remove_mid A A' R2 (fs, fc) (ls, lc) R Heq2).
+    pose proof (wfl_keys_ge _ _ _ HR2) as KR2.
+    pose proof (wfl_le _ _ _ HR2) as HR2le.
+    rewrite (write_front A fs fc R2 start stop (ls + clen lc) val) by (auto; lia).
+    destruct (csub_correct lc (stop - ls) (clen lc) Hlc) as [Hq1 [Hq2 Hq3]]; [lia|].
+    set (pre := csub fc 0 (start - fs)) in *.
+    set (post := csub lc (stop - ls) (clen lc)) in *.
+    assert (Hfin : (if stop <? ls + clen lc
+                    then set_chunk (A ++ opt fs pre ++ val_chunks start val ++ R2) stop post
+                    else A ++ opt fs pre ++ val_chunks start val ++ R2) =
+                   (A ++ opt fs pre ++ val_chunks start val) ++ opt stop post ++ R2).
+    { destruct (stop <? ls + clen lc) eqn:E6.
+      - apply Nat.ltb_lt in E6.
+        replace (A ++ opt fs pre ++ val_chunks start val ++ R2)
+          with ((A ++ opt fs pre ++ val_chunks start val) ++ R2) by (rewrite <- !app_assoc; reflexivity).
+        apply (set_chunk_mid' stop post _ R2 (ls + clen lc)); [| exact KR2 | lia].
+        apply keys_lt_app; [eapply keys_lt_weaken; [exact KA | lia]|].
+        apply keys_lt_app; [apply keys_lt_opt; lia|].
+        eapply keys_lt_weaken; [eapply wfl_keys_lt; apply val_chunks_wfl; [exact Hval | lia] | lia].
+      - apply Nat.ltb_ge in E6. unfold opt.
+        replace (clen post =? 0) with true by (symmetry; apply Nat.eqb_eq; lia).
+        rewrite <- !app_assoc. reflexivity. }
+    rewrite Hfin.
+    assert (Hflat2 : flat v = (flatl A ++ flatl A') ++ cflat lc ++ flatl R2).
+    { rewrite flat_flatl, Heq, Heq2, !flatl_app, flatl_cons, <- app_assoc. reflexivity. }
+    pose proof (flatl_length _ _ _ HA') as LA'.
+    pose proof (cflat_length lc Hlc) as LLC.
+    pose proof (wfl_le _ _ _ HA') as HA'le.
+    split.
+    + unfold wf. cbn [chunks blen].
+      replace (Nat.max (blen v) stop) with (blen v) by lia.
+      rewrite <- !app_assoc.
+      eapply wfl_app; [exact HA|].
+      eapply wfl_app; [apply opt_wfl; exact Hp1|].
+      eapply wfl_app; [eapply wfl_eq; [apply val_chunks_wfl; [exact Hval | lia] | lia | reflexivity]|].
+      eapply wfl_app; [eapply wfl_eq; [apply opt_wfl; exact Hq1 | lia | reflexivity]|].
+      eapply wfl_eq; [exact HR2 | lia | reflexivity].
+    + rewrite flat_BV.
+      rewrite !flatl_app, !opt_flatl, val_chunks_flatl, Hp2, Hq2 by assumption.
+      cbn [skipn].
+      rewrite Hflat at 1. rewrite firstn_mid by lia. rewrite LA, Nat.sub_0_r.
+      rewrite Hflat2. rewrite skipn_mid by (rewrite app_length; lia).
+      rewrite app_length, LA, LA'.
+      replace (stop - (fs + (ls - fs))) with (stop - ls) by lia.
+      rewrite <- !app_assoc. f_equal. f_equal. f_equal. f_equal.
+      apply firstn_all2. rewrite skipn_length. lia.
+Qed.
+
+Lemma set_slice_correct : forall (v : bvec) start stop (val : chunk), wf v -> wfc val ->
+  match fa_set_slice (flat v) start stop (cflat val) with
+  | None => set_slice v start stop val = None
+  | Some l' => exists v', set_slice v start stop val = Some v' /\ wf v' /\ flat v' = l'
+  end.
+Proof.
+  intros v start stop val Hv Hval.
+  pose proof (flat_length v Hv) as HL.
+  pose proof (cflat_length val Hval) as HLv.
+  rewrite set_slice_unfold.
+  destruct (start =? stop) eqn:E0.
+  { unfold fa_set_slice, ByteVecSpec.fa_set_slice. rewrite E0. exists v. auto. }
+  apply Nat.eqb_neq in E0.
+  destruct (stop <? start) eqn:E1.
+  { unfold fa_set_slice, ByteVecSpec.fa_set_slice.
+    replace (start =? stop) with false by (symmetry; apply Nat.eqb_neq; lia).
+    rewrite E1. reflexivity. }
+  apply Nat.ltb_ge in E1.
+  destruct (stop - start =? clen val) eqn:E2; cbn [negb].
+  2:{ apply Nat.eqb_neq in E2. unfold fa_set_slice, ByteVecSpec.fa_set_slice.
+      replace (start =? stop) with false by (symmetry; apply Nat.eqb_neq; lia).
+      replace (stop <? start) with false by (symmetry; apply Nat.ltb_ge; lia).
+      replace (length (cflat val) =? stop - start) with false by (symmetry; apply Nat.eqb_neq; lia).
+      reflexivity. }
+  apply Nat.eqb_eq in E2.
+  rewrite fa_set_slice_some by lia.
+  destruct (blen v <=? start) eqn:E3.
+  - (* backfill *)
+    apply Nat.leb_le in E3. eexists. split; [reflexivity|].
+    destruct (append_leaf_correct v (zeros_chunk (start - blen v)) Hv (zeros_chunk_wfc _)) as [H1 [H2 H3]].
+    destruct (append_correct _ val H1 Hval) as [H4 [H5 H6]].
+    split; [exact H4|]. rewrite H5, H2, zeros_chunk_flat.
+    unfold zext. rewrite HL. rewrite (skipn_all2 (flat v)) by lia. rewrite app_nil_r.
+    rewrite firstn_all2; [reflexivity|].
+    rewrite app_length. unfold ByteVecSpec.zeros. rewrite repeat_length. lia.
+  - apply Nat.leb_gt in E3. rewrite zext_in by lia.
+    unfold load_chunk. rewrite (proj2 (Nat.leb_gt _ _) E3).
+    destruct (find_chunk_spec 0 (chunks v) (blen v) Hv start 0) as [A [fs [fc [R [Heq [Hf [Hk [HA [Hfc [Hfp HR]]]]]]]]]]; [lia|].
+    rewrite Hf.
+    destruct ((start =? fs) && (stop =? fs + clen fc)) eqn:E4.
+    + (* aligned *)
+      pose proof (flatl_length _ _ _ HA) as LA. rewrite Nat.sub_0_r in LA.
+      pose proof (cflat_length fc Hfc) as LC.
+      pose proof (wfl_keys_lt _ _ _ HA) as KA.
+      assert (Hflat : flat v = flatl A ++ cflat fc ++ flatl R).
+      { rewrite flat_flatl, Heq, flatl_app, flatl_cons. reflexivity. }
+      apply andb_true_iff in E4. destruct E4 as [E4 E5].
+      apply Nat.eqb_eq in E4. apply Nat.eqb_eq in E5. subst start.
+      eexists. split; [reflexivity|].
+      rewrite set_chunk_nonempty by lia. rewrite Heq, sd_set_repl by exact KA.
+      split.
+      * unfold wf. cbn [chunks blen]. eapply wfl_app; [exact HA|].
+        constructor; [lia | exact Hval |]. eapply wfl_eq; [exact HR | lia | reflexivity].
+      * rewrite flat_BV.
+        rewrite flatl_app, flatl_cons, Hflat.
+        rewrite firstn_eq_len by lia. f_equal. f_equal.
+        rewrite app_assoc. symmetry. apply skipn_eq_len. rewrite app_length. lia.
+    + (* general *)
+      eexists. split; [reflexivity|].
+      apply (general_path_correct v start stop val A fs fc R); auto; lia.
+Qed.
+
 End Proofs.
